@@ -174,6 +174,8 @@ class Connection(object):
         self.auth_token = auth_token
         self.username = username
         self.connected = False
+        self.socket = None
+        self.file_object = None
 
         self.handle_exception = handle_exception
         self.exception, self.exc_info = None, None
@@ -445,8 +447,13 @@ class Connection(object):
                    1 if ai[0] == socket.AF_INET6 else 2
         ai_faml, ai_type, ai_prot, _ai_cnam, ai_addr = min(info, key=key)
 
-        self.socket = socket.socket(ai_faml, ai_type, ai_prot)
-        self.socket.connect(ai_addr)
+        sock = socket.socket(ai_faml, ai_type, ai_prot)
+        try:
+            sock.connect(ai_addr)
+        except Exception:
+            sock.close()
+            raise
+        self.socket = sock
         self.file_object = self.socket.makefile("rb", 0)
         self.options.compression_enabled = False
         self.options.compression_threshold = -1
